@@ -910,6 +910,15 @@ func parseNumberLiteral(literal string) (value interface{}, err error) {
 
 	parseIntErr := err // Save this first error, just in case
 
+	if err.(*strconv.NumError).Err == strconv.ErrRange && literal[0] == '0' && literal[len(literal)-1] != 'n' {
+		// A 0x/0o/0b or legacy octal literal beyond int64 (e.g. 0x8000000000000401), possibly with separators.
+		// ParseFloat would reject it or read it as decimal: take the exact value and round it once.
+		if bigInt, ok := new(big.Int).SetString(literal, 0); ok {
+			value, _ = new(big.Float).SetInt(bigInt).Float64()
+			return value, nil
+		}
+	}
+
 	value, err = strconv.ParseFloat(literal, 64)
 	if err == nil {
 		return
@@ -919,24 +928,6 @@ func parseNumberLiteral(literal string) (value interface{}, err error) {
 	}
 
 	err = parseIntErr
-
-	if err.(*strconv.NumError).Err == strconv.ErrRange {
-		if len(literal) > 2 &&
-			literal[0] == '0' && (literal[1] == 'X' || literal[1] == 'x') &&
-			literal[len(literal)-1] != 'n' {
-			// Could just be a very large number (e.g. 0x8000000000000000)
-			var value float64
-			literal = literal[2:]
-			for _, chr := range literal {
-				digit := digitValue(chr)
-				if digit >= 16 {
-					goto error
-				}
-				value = value*16 + float64(digit)
-			}
-			return value, nil
-		}
-	}
 
 	if len(literal) > 1 && literal[len(literal)-1] == 'n' {
 		if literal[0] == '0' {
